@@ -73,7 +73,7 @@ CHECKS = {
               "signature comparison is an equivalence that sees through aliases, compares basic types by kind, counts pointers, accepts an exact copy and needs equal arities. Method sets and "
               "interface completion are go/types inputs serialised verbatim. Tied to the code on generated interface/type pairs: binary = model by (file, line, column, code, message) and "
               "binary = Go's own verdict (import scoping, scope lookup, NewMethodSet + Identical, cross-checked with types.Implements) including the names of the missing methods."),
-        note="Fragment: non-generic types and interfaces; no unexported interface methods across packages; no @implements on an alias declaration. types.Identical is a library model - equality of normal forms (aliases removed at every depth, basic types by kind), proved to be exactly that (identical a b = true <-> norm a = norm b) - exercised against go/types on every generated pair.",
+        note="Fragment: non-generic types and interfaces; no @implements on an alias declaration. Methods are identified by (package of an unexported name, name) as Go does (fix 1e9bd0c). types.Identical is a library model - equality of normal forms (aliases removed at every depth, basic types by kind), proved to be exactly that (identical a b = true <-> norm a = norm b) - exercised against go/types on every generated pair.",
         technique="Coq proof (resolution, three-phase characterisation, signature-matching laws) + correspondence with the model and with Go's type checker as independent oracle"),
     "C06": dict(
         text=("Theorems (Coq): the analysis of a package reads the facts of its direct imports and nothing else (two fact stores that answer alike for every direct import path give the same "
